@@ -61,6 +61,20 @@ def c07(ctx):
     ctx.exhaustive = False
 
 
+def c08(ctx):
+    ctx.rule = ("family C08: every (start, stop, step) over {absent} u [-L-2, L+2] u {+-(2^31-1), +-2^31, +-2^62, +-(2^63-1), -2^63} "
+                "(L = 4 quick / 6 thorough) x 3 spellings of the base ([..], a[..], @[..]) x arrays of length 0..L of distinct elements, "
+                "the same arrays as a member, and non-arrays; C08i: indices over the window and huge values; non-trivial: the slice selects "
+                ">= 1 element or is rejected with an error, and at least one parameter is present; distinct by (source text, document)")
+    C.model_check(ctx, "MC_Slice", {"Dev": "{}", "MaxLen": 4 if ctx.tier == Q else 6}, invariants=["Holds"], spec="Spec",
+                  name="MC_Slice", workers=C.NCPU, timeout=1800)
+    C.model_check(ctx, "MC_Slice", {"Dev": '{"CapSliceOffByOne"}', "MaxLen": 3}, invariants=["Holds"], spec="Spec",
+                  name="MC_Slice_neg", workers=C.NCPU, timeout=600, negative=True)
+    eval_family(ctx, "C08", {Q: (5, 1), T: (1, 1)})
+    eval_family(ctx, "C08i", {Q: (1, 1), T: (1, 1)})
+    ctx.exhaustive = ctx.tier == T
+
+
 def c09(ctx):
     ctx.rule = ("family C09: every value of the typed universe FnVals as the (first) argument of every built-in (one-argument forms, and "
                 "two-argument forms over operand pools for strings, separators, key expressions, objects); C09n: calls nested in "
@@ -109,5 +123,5 @@ def c16(ctx):
 
 
 PIPELINES = {
-    "C01": c01, "C02": c02, "C07": c07, "C09": c09, "C10": c10, "C11": c11, "C16": c16,
+    "C01": c01, "C02": c02, "C07": c07, "C08": c08, "C09": c09, "C10": c10, "C11": c11, "C16": c16,
 }
